@@ -65,6 +65,14 @@ func (fr *frame) fmtOperand(verb byte, flags string, arg value) value {
 		return itf.t.String()
 	}
 	prog := fr.i.prog
+	// a symbolic starlark.Int prints as a placeholder (see ext_fmt_symint.go)
+	if itf.t != nil && hasMethod(prog, itf.t, "BigInt", 0, "*math/big.Int") && deepHasSym(itf.v, 6) {
+		return "<sym>"
+	}
+	// a big-integer value (starlark.Int) with symbolic payload prints as <sym>
+	if itf.t != nil && hasMethod(prog, itf.t, "BigInt", 0, "*math/big.Int") && deepSym(itf.v, 8) {
+		return "<sym>"
+	}
 	// error and Stringer take precedence for %s %v %q
 	if verb == 's' || verb == 'v' || verb == 'q' {
 		if itf.t != nil {
